@@ -309,3 +309,22 @@ func init() {
 		return Sc{Eq(iv.Tag, e.c.typeTag(t))}, tBool
 	}
 }
+
+func init() {
+	// unbox(x, T): the value of dynamic type T held by the interface value x (meaningful under istype(x, T))
+	specBuiltins["unbox"] = func(e *SpecEnv, n *ast.CallExpr) (SV, types.Type) {
+		if len(n.Args) != 2 {
+			e.fail("unbox(x, T) needs two arguments")
+		}
+		v, _ := e.eval(n.Args[0])
+		iv, ok := v.(If)
+		if !ok {
+			e.fail("unbox(): not an interface value")
+		}
+		t := e.c.eng.specTypeExpr(e.pkg, n.Args[1])
+		if t == nil {
+			e.fail("unbox(): unknown type")
+		}
+		return e.c.unbox(iv.ID, t), t
+	}
+}
